@@ -42,7 +42,24 @@ func (fx *fnExec) call(in ssa.Instruction, cc *ssa.CallCommon, st *State) Val {
 	if fv.Clo != nil {
 		return fx.callStatic(fv.Clo.Fn, args, fv.Clo.Bindings, st, pos, rt)
 	}
-	return fx.opaqueCall("dynamic call "+cc.Value.Name(), nil, args, st, rt)
+	dname := dynCalleeName(cc.Value)
+	fx.dynCallHooks(dname, args, st, pos)
+	if fx.c != nil {
+		for _, tc := range fx.c.TrustCalls {
+			if tc == dname {
+				// trusted callback: no effect on memory visible to this unit (assumption, listed)
+				fx.ex.TrustedUsed["callback "+dname+" in "+fx.prefix+" assumed not to modify the state under contract"] = true
+				if rt == nil {
+					return Val{}
+				}
+				if tup, ok := rt.(*types.Tuple); ok && tup.Len() == 0 {
+					return Val{}
+				}
+				return fx.freshOf("cb", rt, st)
+			}
+		}
+	}
+	return fx.opaqueCall("dynamic call "+dname, nil, args, st, rt)
 }
 
 func (fx *fnExec) materializeArgs(args []Val) []Val {
@@ -100,7 +117,7 @@ func (fx *fnExec) callStatic0(callee *ssa.Function, args []Val, bindings []Val, 
 	}
 	c := ex.L.contractFor(callee)
 	if c != nil && c.Pure && callee.Blocks != nil {
-		v, _ := ex.runFunc(callee, fx.materializeArgs(args), nil, st.clone(), false, c)
+		v, _ := ex.runFunc(callee, fx.softMaterializeArgs(args), nil, st.clone(), false, c)
 		return v
 	}
 	if c != nil && !c.Inline && !c.Lemma && !fx.ex.useBody(callee) && !(inlineAll && !c.Trusted && callee.Blocks != nil && inRepo(callee)) {
